@@ -207,7 +207,8 @@ PROPS = {
         subs=[
             rapid("pending", "TestC10Pending", 200, 3000, race=True),
             enum("schedule-matrix", "TestC10ScheduleMatrix", race=True),
-            rapid("wait", "TestC10Wait", 8, 30, race=True, shards=dict(quick=1, thorough=4)),
+            rapid("wait", "TestC10Wait", 12, 40, race=True, shards=dict(quick=1, thorough=4)),
+            rapid("restore-while-pending", "TestC10RestoreWhilePending", 60, 600, race=True),
         ],
     ),
     "C11": dict(
